@@ -374,6 +374,13 @@ static inline int ubuf_block_delete(struct ubuf *ubuf, int offset, int size)
         return UBASE_ERR_INVALID;
 
     struct ubuf_block *head_block = ubuf_block_from_ubuf(ubuf);
+    /* refuse out-of-range requests before touching any segment */
+    int abs_offset = offset < 0 ? offset + (int)head_block->total_size : offset;
+    int abs_size = size == -1 ? (int)head_block->total_size - abs_offset : size;
+    if (unlikely(abs_offset < 0 || abs_size < 0 ||
+                 (size_t)abs_offset + (size_t)abs_size >
+                 head_block->total_size))
+        return UBASE_ERR_INVALID;
     if (unlikely((ubuf = ubuf_block_get(ubuf, &offset, &size)) == NULL))
         return UBASE_ERR_INVALID;
     int delete_size = size;
@@ -512,7 +519,9 @@ static inline int ubuf_block_prepend(struct ubuf *ubuf, int prepend)
     block->offset -= prepend;
     block->size += prepend;
     block->total_size += prepend;
-    block->cached_offset += prepend;
+    /* every segment but the first one moved: restart lookups from the head */
+    block->cached_ubuf = ubuf;
+    block->cached_offset = 0;
     return UBASE_ERR_NONE;
 }
 
